@@ -52,6 +52,11 @@ type State struct {
 	qdone  map[string]bool
 	trace  *readTrace
 	cut    bool
+	validCache map[string]bool // conditions proved valid under a prefix of pc
+	invalidAt  map[string]int  // conditions found not valid at this pc length
+	goal   bool   // evaluating a contract clause as a proof goal (Forall may be skolemised)
+	root   *State // the real state a contract evaluation was started from
+	noPre  bool // values created now are not known to be pre-existing memory (results of contracted calls)
 }
 
 // QFact is an assumed universally quantified fact, kept for instantiation at later reads.
@@ -64,6 +69,12 @@ type QFact struct {
 
 type readTrace struct {
 	bases map[string]*Term // base -> slice offset
+	reads []traceRead
+}
+
+type traceRead struct {
+	key string // base rendering
+	abs *Term  // absolute index (slice offset + index)
 }
 
 func newState() *State {
@@ -73,9 +84,15 @@ func newState() *State {
 func (s *State) clone() *State {
 	n := &State{pc: append([]*Term{}, s.pc...), cells: make(map[int]Val, len(s.cells)), heap: make(map[string]*Term, len(s.heap)),
 		objs: make(map[int]Obj, len(s.objs)), text: make(map[string][]Piece, len(s.text)), nalloc: s.nalloc, spec: s.spec, assume: s.assume,
-		qfacts: append([]QFact{}, s.qfacts...), qdone: map[string]bool{}, trace: s.trace, globals: map[string]int{}, cut: s.cut}
+		qfacts: append([]QFact{}, s.qfacts...), qdone: map[string]bool{}, trace: s.trace, globals: map[string]int{}, cut: s.cut, goal: s.goal, root: s.root}
 	for k, v := range s.globals {
 		n.globals[k] = v
+	}
+	if len(s.validCache) > 0 {
+		n.validCache = make(map[string]bool, len(s.validCache))
+		for k := range s.validCache {
+			n.validCache[k] = true
+		}
 	}
 	for k := range s.qdone {
 		n.qdone[k] = true
@@ -205,6 +222,7 @@ func (s *State) readByte(sl SliceV, idx *Term) *Term {
 	}
 	if s.trace != nil {
 		s.trace.bases[sl.Base.String()] = sl.Off
+		s.trace.reads = append(s.trace.reads, traceRead{sl.Base.String(), Add(sl.Off, idx)})
 	}
 	if !s.spec && len(s.qfacts) > 0 {
 		key := sl.Base.String()
@@ -287,7 +305,10 @@ func (s *State) freshVal(t types.Type, hint string) Val {
 		return sv
 	case *types.Pointer:
 		r := Sym(fresh(hint+"_ref"), 64)
-		s.assumeT(ULt(r, alloc0))
+		if !s.noPre {
+			r.Pre = true
+			s.assumeT(ULt(r, alloc0))
+		}
 		return PtrHeap{Ref: r, Root: u.Elem()}
 	case *types.Interface:
 		if isError(t) {
@@ -306,7 +327,10 @@ func (s *State) freshSlice(elem types.Type, hint string, str bool) SliceV {
 	}
 	lim := BVu(1<<40, 64)
 	zero := BVu(0, 64)
-	s.assumeT(ULt(sl.Base, alloc0))
+	if !s.noPre {
+		sl.Base.Pre = true
+		s.assumeT(ULt(sl.Base, alloc0))
+	}
 	s.assumeT(And(SLe(zero, sl.Off), SLt(sl.Off, lim), SLe(zero, sl.Len), SLe(sl.Len, sl.Cap), SLt(sl.Cap, lim)))
 	s.assumeT(Implies(Eq(sl.Base, zero), Eq(sl.Cap, zero))) // a nil slice has no capacity
 	return sl
